@@ -23,7 +23,11 @@ package tokenizers
 
 // whether the first character after the braces, blanks aside, is the comment mark: decided on the text (so that it does not
 // depend on which tokens the skip options drop), and the scanner is back where it was
+// the first position at or after i whose character is not a blank (a character up to U+0020), or the end of input
+//@ rec skipBlanks(s seq[rune], i int) int decreases len(s) - i =
+//@     (i < 0 || i >= len(s)) ? len(s) : ((0 <= s[i] && s[i] <= 32) ? skipBlanks(s, i + 1) : i)
 //@ func (c *MustacheTokenizer) commentMarkAhead
+//@   ensures[C10,C15] result == (chr(seq(sc(c.AbstractTokenizer.Scanner).content), skipBlanks(seq(sc(c.AbstractTokenizer.Scanner).content), old(sc(c.AbstractTokenizer.Scanner).position) + 1)) == 33)
 //@   requires c != nil && c.AbstractTokenizer != nil && isScanner(c.AbstractTokenizer.Scanner)
 //@   ensures[C15,C04] isScanner(c.AbstractTokenizer.Scanner) && sc(c.AbstractTokenizer.Scanner).content == old(sc(c.AbstractTokenizer.Scanner).content)
 //@   ensures[C15,C04,C12] sc(c.AbstractTokenizer.Scanner).position == old(sc(c.AbstractTokenizer.Scanner).position) &&
@@ -36,6 +40,7 @@ package tokenizers
 //@     invariant count >= 0 && sc(c.AbstractTokenizer.Scanner).position == old(sc(c.AbstractTokenizer.Scanner).position) + count &&
 //@         sc(c.AbstractTokenizer.Scanner).position <= len(sc(c.AbstractTokenizer.Scanner).content)
 //@     invariant nextSymbol == chr(seq(sc(c.AbstractTokenizer.Scanner).content), sc(c.AbstractTokenizer.Scanner).position + 1)
+//@     invariant skipBlanks(seq(sc(c.AbstractTokenizer.Scanner).content), old(sc(c.AbstractTokenizer.Scanner).position) + 1) == skipBlanks(seq(sc(c.AbstractTokenizer.Scanner).content), sc(c.AbstractTokenizer.Scanner).position + 1)
 //@     decreases len(sc(c.AbstractTokenizer.Scanner).content) - sc(c.AbstractTokenizer.Scanner).position
 // the body of a comment tag: free text up to (not including) the next "}}" or the end of input; nil when it is empty
 //@ func (c *MustacheTokenizer) readCommentBody
